@@ -330,6 +330,13 @@ def is_contract_obligation(r):
 # ----------------------------------------------------------------------------
 # unit = (extract, assemble, job A [, job B with the known finding classes excluded])
 # ----------------------------------------------------------------------------
+def _applies(k, fn):
+    """a known finding names one function ('function'), several ('functions') or the whole unit"""
+    if 'functions' in k:
+        return fn in k['functions']
+    return k.get('function', fn) == fn
+
+
 def check_unit(pid, unit, tier, known):
     outdir = os.path.join(BUILD, pid)
     os.makedirs(outdir, exist_ok=True)
@@ -344,7 +351,7 @@ def check_unit(pid, unit, tier, known):
         # job B (the same job with the witness classes of the open known findings excluded) does not depend on job A: start it alongside
         futB = {}
         for fn in fns:
-            ops = [k for k in known if k['property'] == pid and k['unit'] == unit['name'] and k['status'] == 'open' and k.get('function', fn) == fn]
+            ops = [k for k in known if k['property'] == pid and k['unit'] == unit['name'] and k['status'] == 'open' and _applies(k, fn)]
             if ops:
                 excl = ' && '.join('!(%s)' % k['witness_class'] for k in ops)
                 futB[fn] = fex.submit(cbmc_job, unit, cfile, outdir, 'B', ['KNOWN_EXCLUDE=(%s)' % excl], tier, fn)
@@ -361,7 +368,7 @@ def check_unit(pid, unit, tier, known):
             raise first_err
     for fn in fns:
         opens = [k for k in known if k['property'] == pid and k['unit'] == unit['name'] and k['status'] == 'open'
-                 and k.get('function', fn) == fn]
+                 and _applies(k, fn)]
         jobA = jobsA[fn]
         res['jobs'].append(jobA)
         canA, oblA = classify(jobA['results'], unit)
@@ -554,7 +561,8 @@ def check_property(pid, tier, only_unit=None, seed=0):
     lines, nviol = [], 0
     for u, r in results:
         for kl in r['known_lines']:
-            lines.append(kl)
+            if kl not in lines:      # one line per finding, however many functions of the unit it names
+                lines.append(kl)
         for i, (fr, job) in enumerate(r['violations']):
             ln, rec = report_violation(pid, u, fr, job, i)
             lines.append("  failed obligation %s (%s) in unit %s at %s" % (fr['property'], fr.get('description', ''), u['name'], rec['repo_location']))
